@@ -128,7 +128,7 @@ def scenarios(ctx):
                    pub_qos=(0, 1) if q else (0, 1, 2), lose_kinds=('done',)))
     out.append(Scn('pubsub-connecting', profile='pubsub', mode='async', connects=[(True, 2, 4)],
                    reconnects=[(True, 0, 4)],
-                   budgets=dict(connect=2, connack=2, pub=2, tick=2, lose=1, rebuild=1, sub=1), pub_qos=(1,),
+                   budgets=dict(connect=2, connack=2, badconnack=1, pub=2, tick=2, lose=1, rebuild=1, sub=1), pub_qos=(1,),
                    lose_kinds=('lost',)))
     return out
 
